@@ -137,3 +137,13 @@ _run0 = run
 def run(ctx, rep, tier):
     _run0(ctx, rep, tier)
     _shared(ctx, rep, tier)
+
+
+_run_structs = run
+
+
+def run(ctx, rep, tier):
+    _run_structs(ctx, rep, tier)
+    from . import structs
+    structs.check_copy_complete(ctx, rep, "C16.e")
+    structs.check_cull_policy(ctx, rep, "C16.f")
